@@ -385,6 +385,11 @@ func refAdmission(c admCfg, r admReq) admExpect {
 		if !r.Upgrade && tv != map[string]string{"polling": "polling", "ws": "websocket"}[r.Sid] {
 			return rej(400, 3, "Bad request")
 		}
+		if !r.Upgrade && r.Sid == "ws" {
+			// a plain HTTP request naming a session that lives on a WebSocket: no transport serves it, so it is
+			// a bad request (it used to be left without any answer: finding plain-http-request-to-non-polling-session)
+			return rej(400, 3, "Bad request")
+		}
 		return admExpect{Outside: "request admitted to an existing session (poll/data/upgrade candidate: C08, C11)"}
 	}
 	if r.Method != "GET" {
